@@ -153,21 +153,74 @@ Proof.
   destruct ((ada s =? cfg s) || (nw <? ada s)) eqn:E2; inversion H; subst; cbn [cfg ada]; repeat split; lia.
 Qed.
 
-Lemma istep_inv : forall s o, int_inv s -> int_inv (istep s o).
+(* the loop: record invariant + every request waiting in the channel is at least 1ms *)
+Definition linv (s : lstate) : Prop := int_inv (li s) /\ (forall r, lch s = Some r -> 1000000 <= r).
+
+Lemma adjust_spec : forall s read cur now,
+  int_inv s -> int_inv (fst (adjust s read cur now)) /\
+  cfg (fst (adjust s read cur now)) = cfg s /\ ada (fst (adjust s read cur now)) = ada s /\
+  (forall r, snd (adjust s read cur now) = Some r -> 1000000 <= r).
 Proof.
-  intros s o I. destruct o as [now|now req|nw|read cur now]; cbn [istep].
-  - destruct (now <? last_tick s) eqn:E; [exact I|].
-    destruct (next_interval_inv s now 0 I ltac:(lia)) as [J _]. exact J.
-  - destruct ((now <? last_tick s) || (req <=? 0)) eqn:E; [exact I|].
-    destruct (next_interval_inv s now req I ltac:(lia)) as [J _].
-    destruct (next_interval s now req) as [s' ni]. cbn [fst] in J.
-    destruct (ni <=? now - last_tick s); exact J.
-  - destruct (set_interval s nw) as [s'|] eqn:E; [|exact I]. exact (proj1 (set_interval_inv s nw s' I E)).
-  - unfold adjust. cbn [fst]. destruct ((extract_physical cur - extract_physical read) * 1000000 <=? ada s + block_recover); exact I.
+  intros s read cur now I. unfold adjust. cbn [fst snd].
+  split; [|split; [|split]].
+  - destruct (_ <=? ada s + block_recover); exact I.
+  - destruct (_ <=? ada s + block_recover); reflexivity.
+  - destruct (_ <=? ada s + block_recover); reflexivity.
+  - intros r H. destruct ((_ <=? ada s) && (min_interval <? ada s)); [|discriminate]. injection H as <-. lia.
 Qed.
 
-Lemma irun_inv : forall ops s, int_inv s -> int_inv (fold_left istep ops s).
-Proof. induction ops as [|o ops IH]; intros s I; cbn; auto. apply IH, istep_inv, I. Qed.
+Lemma lstep_inv : forall s o, linv s -> linv (lstep s o).
+Proof.
+  intros s o [I Ch]. destruct o as [now|now1 now2 now3|nw|read cur now]; cbn [lstep].
+  - destruct (now <? last_tick (li s)) eqn:E; [split; assumption|].
+    destruct (next_interval_inv (li s) now 0 I ltac:(lia)) as [J _].
+    destruct (next_interval (li s) now 0) as [i' ni]. cbn [fst] in J. split; cbn [li lch]; [exact J|exact Ch].
+  - destruct (lch s) as [req|] eqn:Hc; [|split; [exact I|rewrite Hc; exact Ch]].
+    destruct ((now1 <? last_tick (li s)) || (now2 <? now1) || (now3 <? now2)) eqn:E; [split; [exact I|rewrite Hc; exact Ch]|].
+    destruct (next_interval_inv (li s) now1 req I ltac:(lia)) as [J _].
+    destruct (next_interval (li s) now1 req) as [i' ni]. cbn [fst] in J.
+    destruct (ni =? lcur s); [split; cbn [li lch]; [exact J|intros; discriminate]|].
+    split; cbn [li lch]; [|intros; discriminate]. destruct (ni <=? now2 - last_tick i'); exact J.
+  - destruct (set_interval (li s) nw) as [i'|] eqn:E; [|split; assumption].
+    split; cbn [li lch]; [exact (proj1 (set_interval_inv _ _ _ I E))|exact Ch].
+  - destruct (adjust_spec (li s) read cur now I) as [J [_ [_ R]]].
+    destruct (adjust (li s) read cur now) as [i' sent]. cbn [fst snd] in *. split; cbn [li lch]; [exact J|].
+    intros r H. destruct (lch s) as [c|] eqn:Hc; [apply Ch; exact H|]. destruct sent as [r'|]; [injection H as <-; apply R; reflexivity|discriminate].
+Qed.
+
+Lemma lrun_inv : forall ops s, linv s -> linv (fold_left lstep ops s).
+Proof. induction ops as [|o ops IH]; intros s I; cbn; auto. apply IH, lstep_inv, I. Qed.
+
+Lemma linv_init : forall c t0, 0 < c -> linv (init_lstate c t0).
+Proof. intros c t0 H. split; cbn; [unfold int_inv, min_interval; cbn; lia|intros; discriminate]. Qed.
+
+(* a tick re-synchronises the loop's local interval with the record *)
+Lemma ltick_syncs : forall s now, linv s -> last_tick (li s) <= now ->
+  lcur (lstep s (LTick now)) = ada (li (lstep s (LTick now))) /\ last_tick (li (lstep s (LTick now))) = now.
+Proof.
+  intros s now [I _] H. cbn [lstep]. assert (E : (now <? last_tick (li s)) = false) by lia. rewrite E.
+  destruct (next_interval_inv (li s) now 0 I H) as [_ [S _]].
+  destruct (next_interval (li s) now 0) as [i' ni]. cbn [fst snd] in S. cbn [lcur li with_tick ada last_tick].
+  destruct (ni =? lcur s) eqn:E2; split; try reflexivity; lia.
+Qed.
+
+(* a waiting request below the current interval shrinks it when the loop receives it *)
+Lemma lrecv_shrinks : forall s req now1 now2 now3,
+  linv s -> lch s = Some req -> min_interval < cfg (li s) -> req < ada (li s) -> min_interval < ada (li s) ->
+  last_tick (li s) <= now1 -> now1 <= now2 -> now2 <= now3 ->
+  let s' := lstep s (LRecv now1 now2 now3) in
+  ada (li s') = Z.max (req - shrink_preserve) min_interval /\ ada (li s') < ada (li s) /\ min_interval <= ada (li s') /\
+  istt (li s') = ISAdapting /\ lcur s' = ada (li s') /\ lch s' = None.
+Proof.
+  intros s req now1 now2 now3 [I Ch] Hc Hcfg Hlt Hmin H1 H2 H3. cbv zeta. cbn [lstep]. rewrite Hc.
+  assert (E : ((now1 <? last_tick (li s)) || (now2 <? now1) || (now3 <? now2)) = false) by lia. rewrite E.
+  pose proof (Ch req Hc) as Hr.
+  destruct (next_interval_shrinks (li s) now1 req I Hcfg ltac:(lia) Hlt Hmin) as [A [B [C [D F]]]].
+  destruct (next_interval (li s) now1 req) as [i' ni]. cbn [fst snd] in *.
+  destruct (ni =? lcur s) eqn:E2; cbn [li lcur lch].
+  - repeat split; auto; lia.
+  - destruct (ni <=? now2 - last_tick i'); cbn [with_tick ada istt]; repeat split; auto.
+Qed.
 
 (* ---------- arrival (call level) ---------- *)
 Section Arrival.
@@ -222,10 +275,10 @@ End Arrival.
 
 (* ---------- interval operations do not touch the published timestamp ---------- *)
 Lemma prun_proj : forall pd es s,
-  fst (prun pd s es) = run pd (fst s) (sys_events es) /\ snd (prun pd s es) = fold_left istep (int_ops es) (snd s).
+  fst (prun pd s es) = run pd (fst s) (sys_events es) /\ snd (prun pd s es) = fold_left lstep (int_ops es) (snd s).
 Proof.
   intros pd. induction es as [|e es IH]; intros s; cbn [prun fold_left sys_events int_ops flat_map]; auto.
   destruct e as [e|o]; cbn [pstep app].
   - destruct (IH (step pd (fst s) e, snd s)) as [A B]. unfold prun in *. rewrite A, B. split; reflexivity.
-  - destruct (IH (fst s, istep (snd s) o)) as [A B]. unfold prun in *. rewrite A, B. split; reflexivity.
+  - destruct (IH (fst s, lstep (snd s) o)) as [A B]. unfold prun in *. rewrite A, B. split; reflexivity.
 Qed.
